@@ -31,3 +31,6 @@ package kv
 //@   inline
 //@ func (KV).Empty
 //@   inline
+
+//@ func (*KV).Raw
+//@   inline
